@@ -844,30 +844,32 @@ void rt_malloc_fail_nth (long n) { mf_seen = 0; mf_other = 0; mf_failed = 0; __a
 long rt_malloc_seen (void) { return (__atomic_load_n (&mf_seen, __ATOMIC_RELAXED)); }
 long rt_malloc_other (void) { return (__atomic_load_n (&mf_other, __ATOMIC_RELAXED)); }
 long rt_malloc_failed (void) { return (__atomic_load_n (&mf_failed, __ATOMIC_RELAXED)); }
+/* Which allocations are eligible to fail.  Range mode: those whose caller lies inside one of the registered function extents.
+   Scope mode (rt_malloc_scope_mode): those made by a thread while it is inside a harness-declared scope (rt_malloc_scope), wherever
+   in the library they come from -- robust against the constructor being split into helpers -- EXCEPT callers inside the registered
+   extents (the waiter pool behind nsync_mu_lock, which the statement does not cover).  */
+static int mf_scope_mode; static __thread int mf_scope;
+void rt_malloc_scope_mode (int on) { mf_scope_mode = on; }
+void rt_malloc_scope (int delta) { mf_scope += delta; }
+static int mf_consider (const void *ra) {
+	int in = 0;
+	if (!mf_nr && !mf_scope_mode) return (1);
+	for (int i = 0; i < mf_nr; i++) if (ra >= mf_lo[i] && ra < mf_hi[i]) in = 1;
+	if (mf_scope_mode) in = (mf_scope > 0 && !in);
+	if (in) {
+		long k = __atomic_fetch_add (&mf_seen, 1, __ATOMIC_RELAXED);
+		if (k == __atomic_load_n (&mf_nth, __ATOMIC_ACQUIRE)) { __atomic_fetch_add (&mf_failed, 1, __ATOMIC_RELAXED); errno = ENOMEM; return (0); }
+	} else __atomic_fetch_add (&mf_other, 1, __ATOMIC_RELAXED);
+	return (1);
+}
 void *__wrap_malloc (size_t n) {
-	const void *ra = __builtin_return_address (0);
-	if (mf_nr) {
-		int in = 0;
-		for (int i = 0; i < mf_nr; i++) if (ra >= mf_lo[i] && ra < mf_hi[i]) in = 1;
-		if (in) {
-			long k = __atomic_fetch_add (&mf_seen, 1, __ATOMIC_RELAXED);
-			if (k == __atomic_load_n (&mf_nth, __ATOMIC_ACQUIRE)) { __atomic_fetch_add (&mf_failed, 1, __ATOMIC_RELAXED); errno = ENOMEM; return (NULL); }
-		} else __atomic_fetch_add (&mf_other, 1, __ATOMIC_RELAXED);
-	}
+	if (!mf_consider (__builtin_return_address (0))) return (NULL);
 	return (__real_malloc (n));
 }
 
 void *__real_calloc (size_t n, size_t m) __attribute__ ((weak));
 void *__wrap_calloc (size_t n, size_t m) {   /* an optimizer may fuse the constructors' malloc+memset into calloc */
-	const void *ra = __builtin_return_address (0);
-	if (mf_nr) {
-		int in = 0;
-		for (int i = 0; i < mf_nr; i++) if (ra >= mf_lo[i] && ra < mf_hi[i]) in = 1;
-		if (in) {
-			long k = __atomic_fetch_add (&mf_seen, 1, __ATOMIC_RELAXED);
-			if (k == __atomic_load_n (&mf_nth, __ATOMIC_ACQUIRE)) { __atomic_fetch_add (&mf_failed, 1, __ATOMIC_RELAXED); errno = ENOMEM; return (NULL); }
-		} else __atomic_fetch_add (&mf_other, 1, __ATOMIC_RELAXED);
-	}
+	if (!mf_consider (__builtin_return_address (0))) return (NULL);
 	return (__real_calloc (n, m));
 }
 
